@@ -12,6 +12,7 @@ import (
 func init() {
 	vRegister("vC01_basic", vC01_basic)
 	vRegister("vC01_restart", vC01_restart)
+	vRegister("vC01_restartSuspended", vC01_restartSuspended)
 	vRegister("vC02_quiescence", vC02_quiescence)
 	vRegister("vC02_throughput1", vC02_throughput1)
 }
@@ -182,6 +183,30 @@ func vC01_restart() {
 	vAssert(vC01_handled[1] <= 1 && vC01_handled[2] <= 1, "no message is handled twice")
 	if vC01_nHandled == 2 {
 		vCover("both-handled")
+	}
+	vCover("end")
+}
+
+// supervisor-directed restart of a suspended (not running) actor whose turn may still be in progress: message 1 was
+// accepted before the failure and the actor is already scheduled; the restart must wait for the worker that owns the turn
+func vC01_restartSuspended() {
+	pid, w := vC01_newPID()
+	vC01_send(pid, 1) // accepted and scheduled while the actor was still running
+	pid.state.Store(0)
+	node := &restartNode{pid: pid}
+	vGo("restart", func() {
+		_ = restartSubtree(context.Background(), node, nil, &tree{}, nil, vC01Sys{})
+	})
+	vGo("s2", func() { vC01_tell(pid, 2) })
+	vGo("w1", func() { vC01_workerOnce(pid, w) })
+	vGo("w2", func() { vC01_workerOnce(pid, w) })
+	vRun()
+	vAssert(vC01_handled[1] <= 1 && vC01_handled[2] <= 1, "no message is handled twice")
+	if vC01_nHandled == 2 {
+		vCover("both-handled")
+	}
+	if vThreadDone(0) {
+		vCover("restarted")
 	}
 	vCover("end")
 }
